@@ -75,11 +75,15 @@ func NewFifoMapCache[K comparable, V any](ctx context.Context, capacity int, opt
 
 // Capacity returns the actual capacity of the map once the number of partitions and the partition capacity are calculated
 func (f *FifoMapCache[K, V]) Capacity() int {
+	f.currentPartitionMux.RLock()
+	defer f.currentPartitionMux.RUnlock()
 	return f.maxPartitions * f.partitionCapacity
 }
 
 // Contains returns true if the key of type K is in the map
 func (f *FifoMapCache[K, V]) Contains(key K) bool {
+	f.currentPartitionMux.RLock()
+	defer f.currentPartitionMux.RUnlock()
 	if partitionId := f.valuePartitionIndex.Get(key); partitionId > 0 {
 		partition, _ := f.partitions.Peek(partitionId)
 		if partition != nil {
@@ -91,6 +95,8 @@ func (f *FifoMapCache[K, V]) Contains(key K) bool {
 
 // Get returns the value of type V for the key of type K.  If the key is not found, the zero value of V is returned.
 func (f *FifoMapCache[K, V]) Get(key K) (value V) {
+	f.currentPartitionMux.RLock()
+	defer f.currentPartitionMux.RUnlock()
 	if partitionId := f.valuePartitionIndex.Get(key); partitionId > 0 {
 		partition, _ := f.partitions.Peek(partitionId)
 		if partition != nil {
@@ -102,6 +108,13 @@ func (f *FifoMapCache[K, V]) Get(key K) (value V) {
 
 // Set sets the value of type V for the key of type K.
 func (f *FifoMapCache[K, V]) Set(key K, value V) {
+	f.currentPartitionMux.Lock()
+	defer f.currentPartitionMux.Unlock()
+	f.set(key, value)
+}
+
+// set is Set for callers that already hold the write lock
+func (f *FifoMapCache[K, V]) set(key K, value V) {
 	var partitionId uint64
 	// if key exists, update value
 	if partitionId = f.valuePartitionIndex.Get(key); partitionId > 0 {
@@ -118,6 +131,8 @@ func (f *FifoMapCache[K, V]) Set(key K, value V) {
 }
 
 func (f *FifoMapCache[K, V]) Delete(key K) {
+	f.currentPartitionMux.Lock()
+	defer f.currentPartitionMux.Unlock()
 	if partitionId := f.valuePartitionIndex.Get(key); partitionId > 0 {
 		partition, _ := f.partitions.Peek(partitionId)
 		if partition != nil && partition.Has(key) {
@@ -144,6 +159,8 @@ func (f *FifoMapCache[K, V]) Clear() {
 
 // Keys returns a slice of keys
 func (f *FifoMapCache[K, V]) Keys() []K {
+	f.currentPartitionMux.RLock()
+	defer f.currentPartitionMux.RUnlock()
 	keys := make([]K, 0, f.partitionCapacity*f.partitions.Len())
 	for _, partition := range f.partitions.Values() {
 		keys = append(keys, partition.Keys()...)
@@ -153,6 +170,8 @@ func (f *FifoMapCache[K, V]) Keys() []K {
 
 // Values returns a slice of values
 func (f *FifoMapCache[K, V]) Values() []V {
+	f.currentPartitionMux.RLock()
+	defer f.currentPartitionMux.RUnlock()
 	values := make([]V, 0, f.partitionCapacity*f.partitions.Len())
 	for _, partition := range f.partitions.Values() {
 		values = append(values, partition.Values()...)
@@ -162,8 +181,9 @@ func (f *FifoMapCache[K, V]) Values() []V {
 
 func (f *FifoMapCache[K, V]) Resize(capacity int) {
 	numPartitions, partitionLength := f.config.numPartitionCalculator(capacity)
+	f.currentPartitionMux.Lock()
+	defer f.currentPartitionMux.Unlock()
 	if numPartitions != f.maxPartitions || partitionLength != f.partitionCapacity {
-		f.currentPartitionMux.Lock()
 		f.maxPartitions = numPartitions
 		f.partitionCapacity = partitionLength
 		oldPartitions := f.partitions
@@ -171,7 +191,6 @@ func (f *FifoMapCache[K, V]) Resize(capacity int) {
 		f.valuePartitionIndex = NewSafeMap[K, uint64](0)
 		newPartition := NewSafeMap[K, V](f.partitionCapacity)
 		f.currentPartitionId = f.partitions.Push(newPartition)
-		f.currentPartitionMux.Unlock()
 
 		for {
 			partition := oldPartitions.Pop()
@@ -180,23 +199,18 @@ func (f *FifoMapCache[K, V]) Resize(capacity int) {
 			}
 			for _, key := range partition.Keys() {
 				value := partition.Get(key)
-				f.Set(key, value)
+				f.set(key, value)
 			}
-			f.Sweep()
+			f.sweep()
 		}
 	}
 }
 
 // getCurrentPartition returns reference to the currentPartition which new key/values should be added to
 func (f *FifoMapCache[K, V]) getCurrentPartition() (*SafeMap[K, V], uint64) {
-	f.currentPartitionMux.RLock()
 	if currentPartition, _ := f.partitions.Peek(f.currentPartitionId); currentPartition != nil && currentPartition.Len() < f.partitionCapacity {
-		defer f.currentPartitionMux.RUnlock()
 		return currentPartition, f.currentPartitionId
 	}
-	f.currentPartitionMux.RUnlock()
-	f.currentPartitionMux.Lock()
-	defer f.currentPartitionMux.Unlock()
 	newPartition := NewSafeMap[K, V](f.partitionCapacity)
 	f.currentPartitionId = f.partitions.Push(newPartition)
 	go f.Sweep()
@@ -205,12 +219,13 @@ func (f *FifoMapCache[K, V]) getCurrentPartition() (*SafeMap[K, V], uint64) {
 
 // sweep removes partitions from the stack if the number of partitions exceeds the maxPartitions
 func (f *FifoMapCache[K, V]) Sweep() {
-	// restrict to single sweep at a time
-	f.sweepingMux.Lock()
-	defer f.sweepingMux.Unlock()
+	f.currentPartitionMux.Lock()
+	defer f.currentPartitionMux.Unlock()
+	f.sweep()
+}
 
-	f.currentPartitionMux.RLock()
-	defer f.currentPartitionMux.RUnlock()
+// sweep is Sweep for callers that already hold the write lock
+func (f *FifoMapCache[K, V]) sweep() {
 	if f.partitions.Len() > f.maxPartitions {
 		numToPop := f.partitions.Len() - f.maxPartitions
 		for i := 0; i < numToPop; i++ {
